@@ -31,7 +31,7 @@ DERIV = ("copy", "pickle", "ctor")
 
 
 def plan(tier):
-    n = 170 if tier == "quick" else 120000
+    n = 600 if tier == "quick" else 120000
     return {f"{c}:{d}": n for c in CLASSES for d in DERIV}
 
 
